@@ -1,6 +1,6 @@
-\* every sequence of 4 operations (at most 2 requests)
+\* every sequence of 5 operations (at most 2 requests)
 CONSTANTS
-  Depth = 4
+  Depth = 5
   MaxReq = 2
   RModes = {"try", "guard", "fg", "wait", "disc"}
 SPECIFICATION RSpec
